@@ -1,2 +1,2 @@
--- stub: replaced by the family's driver
-def main : IO Unit := IO.println "family registry: no driver yet"
+import PrimitivModel.Driver.RegistryDrv
+def main : IO Unit := Primitiv.Drv.RegistryDrv.main
